@@ -30,7 +30,10 @@ BUDGET_S = {"quick": 300, "thorough": 2400}
 MIN_EVALS = {"quick": 2000, "thorough": 20000}
 
 EXPECTED = "livingroom"
-NAMES = {"equal": EXPECTED, "other": "kitchen", "case": "LivingRoom", "prefix": "livingroo", "unicode": "wohnzimmer-ü", "empty": ""}
+NAMES = {"equal": EXPECTED, "other": "kitchen", "case": "LivingRoom", "prefix": "livingroo", "unicode": "wohnzimmer-ü", "empty": "",
+         # names RELATED to the expected one without being equal to it: the expected name plus a MAC-style / numeric suffix (a fleet built with
+         # name_add_mac_suffix, a sibling device)
+         "mac-suffix": "livingroom-a1b2c3", "extends": "livingroom-2"}
 # the configured name itself is not always lower-case ASCII: names are compared verbatim, so a mixed-case or non-ASCII expected name accepts
 # exactly the device that sends the same spelling
 EXPECTED_FORMS = ("livingroom", "Kitchen-Sensor", "GARAGE", "Wohnzimmer-Ü", "straße")
@@ -41,7 +44,8 @@ def names_for(row: dict[str, Any]) -> dict[str, str]:
     if exp == EXPECTED:
         return NAMES
     case = exp.lower() if exp.lower() != exp else exp.upper()
-    return {"equal": exp, "other": "kitchen", "case": case, "prefix": exp[:-1], "unicode": exp.casefold() + "-ü", "empty": ""}
+    return {"equal": exp, "other": "kitchen", "case": case, "prefix": exp[:-1], "unicode": exp.casefold() + "-ü", "empty": "",
+            "mac-suffix": exp + "-a1b2c3", "extends": exp + "-2"}
 PSK = bytes(range(1, 33))
 PACKAGINGS = ("separate", "one-chunk", "split-mid-frame", "connect-before-hello", "hello-twice", "one-chunk+peer-disconnect", "one-chunk+garbage",
               "one-chunk+rst")    # the device aborts the connection (RST) right behind its last answer: the answer is still read, the socket is already dead
